@@ -11,6 +11,7 @@ def sh(cmd, cwd=None):
 
 def main():
     pid, k = sys.argv[1], sys.argv[2]
+    out_k = sys.argv[sys.argv.index('--as') + 1] if '--as' in sys.argv else k
     wt = f"/tmp/wt/{pid}"
     diff = f"{wt}/mut{pid}_{k}.diff"; demo = f"{wt}/demo{pid}_{k}.py"; notes = f"{wt}/NOTES{pid}_.md"
     d = tempfile.mkdtemp(prefix='pane-seed-', dir='/tmp')
@@ -25,19 +26,19 @@ def main():
         rc1, out1 = sh("/venv/bin/python demo.py", d)
         _, base = sh("/venv/bin/python -m pytest -q -p no:cacheprovider 2>&1 | tail -1", d)
         ok = rc0 == 0 and rc1 != 0 and '218 passed' in base and '9 failed' in base
-        print(f"{pid}_{k}: demo clean rc={rc0} / mutated rc={rc1}; baseline on mutant: {base.strip()} -> {'CONFIRMED' if ok else 'REJECTED'}")
+        print(f"{pid}_{out_k}: demo clean rc={rc0} / mutated rc={rc1}; baseline on mutant: {base.strip()} -> {'CONFIRMED' if ok else 'REJECTED'}")
         if not ok:
             print(out0[-300:], out1[-300:]); return 1
-        dst = f"{V}/seeded/{pid}_{k}"
+        dst = f"{V}/seeded/{pid}_{out_k}"
         os.makedirs(dst, exist_ok=True)
         shutil.copy(diff, f"{dst}/patch.diff")
         open(f"{dst}/demo.py", 'w').write(open(demo).read())
         note = ''
         if os.path.exists(notes):
-            note = open(notes).read()
+            note = open(notes).read() + f"\n\n(this directory holds mutation {k} of these notes)\n"
         open(f"{dst}/NOTES.md", 'w').write(note)
         meta = {
-            'id': f"{pid}_{k}", 'property': pid,
+            'id': f"{pid}_{out_k}", 'property': pid,
             'origin': 'fresh sub-agent given only the property text and its own scratch worktree',
             'base_commit': subprocess.run("git -C /repo rev-parse HEAD", shell=True, capture_output=True, text=True).stdout.strip(),
             'needs_to_manifest': ' '.join(sys.argv[sys.argv.index('--needs') + 1:]) if '--needs' in sys.argv else 'see NOTES.md',
